@@ -416,11 +416,19 @@ func (vc *FuncVC) translateAxioms() {
 		}
 		text := t.S
 		// an axiom that reads heaps holds in every state: close it universally over the heaps it mentions
-		if len(ds.heaps) > 0 {
+		// (and over the set of allocated objects, renamed so that it cannot be confused with a state's)
+		usesAlloc := strings.Contains(text, dummy.alloc.S+" ") || strings.Contains(text, dummy.alloc.S+")")
+		if usesAlloc {
+			text = substTokens(text, map[string]string{dummy.alloc.S: "alloc!ax"})
+		}
+		if len(ds.heaps) > 0 || usesAlloc {
 			var bs []string
 			for _, hn := range sortedKeys(ds.heaps) {
 				h := ds.heaps[hn]
 				bs = append(bs, fmt.Sprintf("(%s %s)", h.S, h.Sort))
+			}
+			if usesAlloc {
+				bs = append(bs, "(alloc!ax (Array Ref Bool))")
 			}
 			if strings.HasPrefix(text, "(forall (") {
 				// one flat quantifier, so that the axiom's patterns also bind the heaps
@@ -430,6 +438,70 @@ func (vc *FuncVC) translateAxioms() {
 			}
 		}
 		vc.axioms = append(vc.axioms, axiomT{name: ad.Name, term: text, syms: headSymbols(text), lemma: dd.lemma})
+	}
+	// frame rules of recursive predicates (see FrameDecl)
+	for _, fd := range vc.w.specs.Frames {
+		fields := strings.Fields(fd.Name)
+		if len(fields) != 3 || vc.bv {
+			continue
+		}
+		pd := vc.w.specs.Pures[fields[0]]
+		if pd == nil {
+			continue
+		}
+		pkg := vc.w.typPkgs[fd.Pkg]
+		var binders, a1, a2, agree []string
+		ok := true
+		func() {
+			defer func() {
+				if recover() != nil {
+					ok = false
+				}
+			}()
+			var sorts []Sort
+			lo1, hi1, lo2, hi2 := "", "", "", ""
+			for i, p := range pd.Params {
+				ps, _ := vc.specSort(p.Type, pkg)
+				sorts = append(sorts, ps)
+				switch p.Name {
+				case fields[1]:
+					binders = append(binders, "(lo1!fr (Array Ref Bool))", "(lo2!fr (Array Ref Bool))")
+					a1, a2 = append(a1, "lo1!fr"), append(a2, "lo2!fr")
+					lo1, lo2 = "lo1!fr", "lo2!fr"
+				case fields[2]:
+					binders = append(binders, "(hi1!fr (Array Ref Bool))", "(hi2!fr (Array Ref Bool))")
+					a1, a2 = append(a1, "hi1!fr"), append(a2, "hi2!fr")
+					hi1, hi2 = "hi1!fr", "hi2!fr"
+				default:
+					binders = append(binders, fmt.Sprintf("(a%d!fr %s)", i, ps))
+					a1, a2 = append(a1, fmt.Sprintf("a%d!fr", i)), append(a2, fmt.Sprintf("a%d!fr", i))
+				}
+			}
+			if lo1 == "" || hi1 == "" {
+				ok = false
+				return
+			}
+			for i, h := range pd.Reads {
+				_, hs := vc.resolveHeap(h, pkg)
+				binders = append(binders, fmt.Sprintf("(H%d!fr %s)", i, hs), fmt.Sprintf("(G%d!fr %s)", i, hs))
+				a1 = append(a1, fmt.Sprintf("H%d!fr", i))
+				a2 = append(a2, fmt.Sprintf("G%d!fr", i))
+				agree = append(agree, fmt.Sprintf("(= (select H%d!fr r!fr) (select G%d!fr r!fr))", i, i))
+				sorts = append(sorts, hs)
+			}
+			rs, _ := vc.specSort(pd.Ret, pkg)
+			fname := vc.sc.Func("f."+pd.Name, sorts, rs)
+			t1 := fmt.Sprintf("(%s %s)", fname, strings.Join(a1, " "))
+			t2 := fmt.Sprintf("(%s %s)", fname, strings.Join(a2, " "))
+			in1 := fmt.Sprintf("(and (select %s r!fr) (not (select %s r!fr)))", hi1, lo1)
+			in2 := fmt.Sprintf("(and (select %s r!fr) (not (select %s r!fr)))", hi2, lo2)
+			text := fmt.Sprintf("(forall (%s) (! (=> (and %s (forall ((r!fr Ref)) (=> %s (and %s %s)))) %s) :pattern (%s %s)))",
+				strings.Join(binders, " "), t1, in1, in2, strings.Join(agree, " "), t2, t1, t2)
+			vc.axioms = append(vc.axioms, axiomT{name: "frame." + pd.Name, term: text, syms: headSymbols(text)})
+		}()
+		if !ok {
+			vc.warn("frame rule for %s could not be generated", fd.Name)
+		}
 	}
 }
 
